@@ -110,8 +110,16 @@ Definition positions_of (il : ilabel) : list Z := match il with IInt z => [z] | 
 Definition init_suffix (n : nat) (pos : list Z) : list bool :=
   map (fun idx => memZ (Z.of_nat idx) pos) (seq 0 n).
 
+(** name of the variable that receives the amount when an initial label is requested -- a regenerated fact:
+      InitRawSuffix   variables[f"{k}{suffix}"] with suffix = "__" + pattern   (the tree before the repair:
+                      for a compound with 0 label positions this is the stray name "k__")
+      InitIsoName     variables[f"{k}__{suffix}" if suffix else k] with suffix = pattern  (the isotopomer name) *)
+Inductive init_name_kind := InitRawSuffix | InitIsoName | InitUnknown.
+Definition init_target_name (ik : init_name_kind) (k : N) (bits : list bool) : lname :=
+  match ik with InitIsoName => iso_name k bits | _ => LIso k bits end.
+
 (** one iteration of `for k, v in get_initial_conditions().items()` *)
-Definition init_step (lv : label_vars) (init : init_labels) (vars : list (lname * Z)) (kv : N * Z)
+Definition init_step (ik : init_name_kind) (lv : label_vars) (init : init_labels) (vars : list (lname * Z)) (kv : N * Z)
   : list (lname * Z) :=
   let k := fst kv in let v := snd kv in
   match getN k (isotopomers lv) with
@@ -120,22 +128,21 @@ Definition init_step (lv : label_vars) (init : init_labels) (vars : list (lname 
     let vars1 := fold_left (fun d i => setL i 0%Z d) isos vars in
     match getN k init with
     | None => setL (hd (LPlain k) isos) v vars1
-    | Some il => setL (LIso k (init_suffix (nlab lv k) (positions_of il))) v vars1
-                 (* f"{k}__" + pattern: for a compound with 0 labels this is the stray name "k__" *)
+    | Some il => setL (init_target_name ik k (init_suffix (nlab lv k) (positions_of il))) v vars1
     end
   end.
 
-Definition build_vars (lv : label_vars) (init : init_labels) (bvars : list (N * Z)) : list (lname * Z) :=
-  fold_left (init_step lv init) bvars [].
+Definition build_vars (ik : init_name_kind) (lv : label_vars) (init : init_labels) (bvars : list (N * Z)) : list (lname * Z) :=
+  fold_left (init_step ik lv init) bvars [].
 
 Definition total_name (lv : label_vars) (a : N) : lname :=
   match getN a (isotopomers lv) with Some _ => LTotal a | None => LPlain a end.
 
-Definition build_iso (ext_bit : bool) (lv : label_vars) (lmaps : label_maps) (init : init_labels) (bm : bmodel)
+Definition build_iso (ext_bit : bool) (ik : init_name_kind) (lv : label_vars) (lmaps : label_maps) (init : init_labels) (bm : bmodel)
   : result (lmodel Z) :=
   let params := map (fun kv => (LPlain (fst kv), snd kv)) (b_params bm) in
   let dpars := map (fun d => mkLD (LPlain (d_name d)) (d_fn d) (map LPlain (d_args d))) (b_dpars bm) in
-  let vars := build_vars lv init (b_vars bm) in
+  let vars := build_vars ik lv init (b_vars bm) in
   let totals := map (fun ci => mkLD (LTotal (fst ci)) FSum (snd ci)) (isotopomers lv) in
   let dvars := map (fun d => mkLD (LPlain (d_name d)) (d_fn d) (map (total_name lv) (d_args d))) (b_dvars bm) in
   bind (collect (map (fun r =>
